@@ -288,7 +288,13 @@ func init() {
 					return true
 				}
 				r.Site(call.Pos(), "alignSender argument is HandleEvent's senderID parameter")
-				if len(call.Args) != 1 || !r.isParam(f, deref(info, call.Args[0]), 1) {
+				okArg := false
+				for _, a := range call.Args { // (whatever else alignSender may be given)
+					if r.isParam(f, deref(info, a), 1) {
+						okArg = true
+					}
+				}
+				if !okArg {
 					r.Fail(f.Name()+":alignSender-arg", call.Pos(), nil, "alignSender is not called with HandleEvent's sender id parameter")
 				}
 				return true
@@ -319,6 +325,8 @@ func init() {
 				r.Fail(f.Name()+":no-lookup", f.Decl.Pos(), nil, "alignSender no longer looks the sender up in srIDs")
 				return
 			}
+			// blocking: the literal waits on the gate. It must do so on EVERY path (a select with another
+			// ready case - a cancelled context, a timer - lets the sender through before the barriers arrived)
 			blocks := func(lit *ast.FuncLit) bool {
 				found := false
 				inspect(lit.Body, func(n ast.Node) bool {
@@ -330,7 +338,33 @@ func init() {
 					}
 					return true
 				})
-				return found
+				if !found {
+					return false
+				}
+				always := true
+				c := pathsim.Run(r.P, lit, &pathsim.Spec{Step: func(c *pathsim.Ctx, st pathsim.State, ev *pathsim.Event) []pathsim.State {
+					if ev.Kind == pathsim.EvRecv && prog.SelField(c.Info, ev.Chan) == gate {
+						st.A = 1
+						return []pathsim.State{st}
+					}
+					if ev.Kind == pathsim.EvRangeIter || ev.Kind == pathsim.EvLoopExit {
+						if rs, ok := ev.Node.(*ast.RangeStmt); ok && prog.SelField(c.Info, rs.X) == gate {
+							st.A = 1
+							return []pathsim.State{st}
+						}
+					}
+					if (ev.Kind == pathsim.EvReturn || ev.Kind == pathsim.EvExit) && st.A == 0 {
+						always = false
+					}
+					return nil
+				}})
+				if len(c.Undecided) > 0 {
+					return true // keep the syntactic verdict
+				}
+				if !always {
+					r.Fail(f.Name()+":escapable-wait", lit.Pos(), nil, "the wait function returned for a sender that already delivered its barrier can return without the gate having opened (another select case / an early return): the sender's later events enter the checkpoint's cut")
+				}
+				return true
 			}
 			atoms := []guardAtom{
 				{Name: "sender-in-srIDs", Deps: []types.Object{okVar}, Match: func(c *pathsim.Ctx, e ast.Expr) (bool, bool) {
